@@ -169,7 +169,7 @@ def compare(model, got, physics, digits=False, what=''):
                                mc['dircos'], mc['first'], mc['second']))
 
 
-class GridMachine(Machine):
+class GridMachineBase(Machine):
     PROP = 'C08'
     PHYSICS = False
     OPS = ('ADD_BLOCK', 'DEL_BLOCK', 'ADD_CON', 'DEL_CON', 'ADD_ROCK', 'DEL_ROCK',
@@ -294,7 +294,7 @@ class GridMachine(Machine):
     def apply(self, op):
         kind, ch = op[0], list(op[1]) + [0] * 8
         ctx = self.ctx
-        if self.grid is None and kind != 'INIT':
+        if self.grid is None and kind not in ('INIT', 'XINIT'):
             ctx.stats['skip_noinit'] += 1
             return
         done = getattr(self, 'op_' + kind)(ch)
@@ -757,6 +757,222 @@ class GridMachine(Machine):
         pass
 
 
-class GridPhysicsMachine(GridMachine):
+# ---------------------------------------------------------------------------------------------
+# deterministic sweep: every op sequence up to a bound over the 4-name universe (C08 quantifier)
+
+PAIRS = [(0, 1), (0, 2), (0, 3), (1, 2), (1, 3), (2, 3)]
+
+
+def _renmaps():
+    import itertools
+    maps = []
+    for a, b in itertools.combinations(range(4), 2):
+        maps.append({a: b, b: a})                                   # swaps
+    for trio in itertools.combinations(range(4), 3):
+        for perm in ((1, 2, 0), (2, 0, 1)):
+            maps.append(dict((trio[i], trio[perm[i]]) for i in range(3)))   # 3-cycles
+    for perm in itertools.permutations(range(4)):
+        # 4-cycles only
+        seen, k = set(), 0
+        for _ in range(4):
+            seen.add(k)
+            k = perm[k]
+        if len(seen) == 4 and all(perm[i] != i for i in range(4)):
+            maps.append(dict((i, perm[i]) for i in range(4)))
+    for a in range(4):
+        for b in range(4):
+            if a != b:
+                maps.append({a: b})                                   # move to a free name
+    return maps
+
+
+RENMAPS = _renmaps()
+X_STRUCT = ([['XADDB', [k]] for k in range(4)] + [['XDELB', [k]] for k in range(4)] +
+            [['XADDC', [p, 0]] for p in range(6)] + [['XDELC', [p]] for p in range(6)] +
+            [['XREN', [m]] for m in range(len(RENMAPS))] + [['XREORD', [m]] for m in range(3)])
+X_ALL = (X_STRUCT + [['XADDC', [p, 1]] for p in range(6)] + [['XDEMOTE', [k]] for k in range(4)] +
+         [['CLEAN_ROCK', []], ['XADDR', []], ['XMINC', []]] +
+         [['XDELR', [r]] for r in range(3)] + [['XRENR', [r]] for r in range(3)] +
+         [['XSETR', [k, r]] for k in range(4) for r in range(2)])
+X_INITS = 3
+
+
+def _sweep_layout():
+    a, st = len(X_ALL), len(X_STRUCT)
+    return [(1, a, X_ALL), (2, a * a, X_ALL), (3, st ** 3, X_STRUCT)]
+
+
+class _SweepMixin(object):
+
+    @classmethod
+    def sweep_size(cls, tier):
+        return X_INITS * sum(n for _, n, _ in _sweep_layout())
+
+    @classmethod
+    def sweep_case(cls, i, tier):
+        init = i % X_INITS
+        j = i // X_INITS
+        for length, n, alpha in _sweep_layout():
+            if j < n:
+                ops = []
+                for _ in range(length):
+                    ops.append(alpha[j % len(alpha)])
+                    j //= len(alpha)
+                break
+            j -= n
+        knobs = {'tier': tier, 'universe': True, 'sweep': True, 'bufsize': None}
+        return knobs, [['XINIT', [init], None]] + [[k, list(c), None] for k, c in ops]
+
+    def uname(self, k):
+        return UNIVERSE[k % 4]
+
+    def op_XINIT(self, ch):
+        tg = self.tg
+        g = tg.t2grid()
+        rks = [tg.rocktype('dfalt'), tg.rocktype('rock1')]
+        for r in rks:
+            g.add_rocktype(r)
+        v = ch[0] % X_INITS
+        names = {0: (0, 1, 2, 3), 1: (0, 1, 2), 2: ()}[v]
+        for k in names:
+            g.add_block(tg.t2block(UNIVERSE[k], float(k + 1), rks[k % 2],
+                                   centre=[float(k), 0., -1.]))
+        pairs = {0: ((0, 1), (1, 2), (2, 3)), 1: ((0, 1), (1, 2), (2, 0)), 2: ()}[v]
+        for a, b in pairs:
+            g.add_connection(tg.t2connection([g.block[UNIVERSE[a]], g.block[UNIVERSE[b]]], 1,
+                                             [0.5 + a, 0.25 + b], 2.0 + a, -1.0 if a < b else 0.5))
+        self.grid, self.geo, self.geo_valid = g, None, False
+        self.model = extract(g)
+        return v
+
+    def op_XADDB(self, ch):
+        n = self.uname(ch[0])
+        if n in self.grid.block or not self.grid.rocktypelist:
+            return False
+        return self._xaddb(n)
+
+    def _xaddb(self, n):
+        g = self.grid
+        rock = g.rocktypelist[0]
+        self.call(lambda: g.add_block(self.tg.t2block(n, 2.5, rock, centre=[1., 1., -2.])),
+                  'add_block')
+        self.model.b[n] = [2.5, rock.name, (1., 1., -2.)]
+
+    def op_XDELB(self, ch):
+        n = self.uname(ch[0])
+        if n not in self.grid.block:
+            return False
+        self.call(lambda: self.grid.delete_block(n), 'delete_block')
+        del self.model.b[n]
+        for k in [k for k in self.model.c if n in k]:
+            del self.model.c[k]
+
+    def op_XADDC(self, ch):
+        g = self.grid
+        a, b = PAIRS[ch[0] % 6]
+        if ch[1] % 2:
+            a, b = b, a
+        na, nb = UNIVERSE[a], UNIVERSE[b]
+        if na not in g.block or nb not in g.block or frozenset((na, nb)) in self.model.c:
+            return False
+        self.call(lambda: g.add_connection(self.tg.t2connection(
+            [g.block[na], g.block[nb]], 2, [0.5, 1.5], 3.0, 0.6)), 'add_connection')
+        self.model.c[frozenset((na, nb))] = {'first': na, 'second': nb, 'area': 3.0,
+                                             'direction': 2, 'dist': {na: 0.5, nb: 1.5},
+                                             'dircos': 0.6}
+
+    def op_XDELC(self, ch):
+        g = self.grid
+        a, b = PAIRS[ch[0] % 6]
+        key = frozenset((UNIVERSE[a], UNIVERSE[b]))
+        if key not in self.model.c:
+            return False
+        m = self.model.c[key]
+        self.call(lambda: g.delete_connection((m['first'], m['second'])), 'delete_connection')
+        del self.model.c[key]
+
+    def op_XREN(self, ch):
+        g = self.grid
+        mp = dict((UNIVERSE[a], UNIVERSE[b]) for a, b in RENMAPS[ch[0] % len(RENMAPS)].items())
+        mp = dict((a, b) for a, b in mp.items() if a in g.block)
+        if not mp or len(set(mp.values())) != len(mp) or \
+                any(v in g.block and v not in mp for v in mp.values()):
+            return False          # not a one-to-one map free of collisions in this state
+        self.call(lambda: g.rename_blocks(dict(mp)), 'rename_blocks')
+        m = self.model
+        m.b = dict((mp.get(nm, nm), v) for nm, v in m.b.items())
+        newc = {}
+        for v in m.c.values():
+            v = dict(v)
+            v['first'], v['second'] = mp.get(v['first'], v['first']), mp.get(v['second'], v['second'])
+            v['dist'] = dict((mp.get(nm, nm), d) for nm, d in v['dist'].items())
+            newc[frozenset((v['first'], v['second']))] = v
+        m.c = newc
+        return len(mp)
+
+    def op_XREORD(self, ch):
+        g = self.grid
+        mode = ch[0] % 3
+        bn = [b.name for b in g.blocklist][::-1] if mode == 0 and g.blocklist else None
+        cn = None
+        if mode >= 1 and g.connectionlist:
+            cn = [tuple(b.name for b in c.block) for c in g.connectionlist][::-1]
+            if mode == 2:
+                cn = [c[::-1] for c in cn]
+        if bn is None and cn is None:
+            return False
+        self.call(lambda: g.reorder(bn, cn), 'reorder')
+        return mode
+
+    def op_XDEMOTE(self, ch):
+        n = self.uname(ch[0])
+        if n not in self.grid.block:
+            return False
+        self.call(lambda: self.grid.demote_block(n), 'demote_block')
+
+    def op_XADDR(self, ch):
+        if 'rock2' in self.grid.rocktype:
+            return False
+        self.call(lambda: self.grid.add_rocktype(self.tg.rocktype('rock2')), 'add_rocktype')
+        self.model.r.add('rock2')
+
+    def op_XDELR(self, ch):
+        g = self.grid
+        n = ('dfalt', 'rock1', 'rock2')[ch[0] % 3]
+        if n not in g.rocktype or any(b.rocktype.name == n for b in g.blocklist):
+            return False
+        self.call(lambda: g.delete_rocktype(n), 'delete_rocktype')
+        self.model.r.discard(n)
+
+    def op_XRENR(self, ch):
+        g = self.grid
+        n = ('dfalt', 'rock1', 'rock2')[ch[0] % 3]
+        if n not in g.rocktype or 'ROCK3' in g.rocktype:
+            return False
+        self.call(lambda: g.rename_rocktype(n, 'ROCK3'), 'rename_rocktype')
+        self.model.r.discard(n)
+        self.model.r.add('ROCK3')
+        for v in self.model.b.values():
+            if v[1] == n:
+                v[1] = 'ROCK3'
+
+    def op_XSETR(self, ch):
+        g = self.grid
+        n = self.uname(ch[0])
+        if n not in g.block or not g.rocktypelist:
+            return False
+        r = g.rocktypelist[ch[1] % len(g.rocktypelist)]
+        g.block[n].rocktype = r
+        self.model.b[n][1] = r.name
+
+    def op_XMINC(self, ch):
+        return self.op_MINC([0, 0, 0, 0, 0, 0, 0, 0])
+
+
+class GridMachine(_SweepMixin, GridMachineBase):
+    PROP = 'C08'
+
+
+class GridPhysicsMachine(_SweepMixin, GridMachineBase):
     PROP = 'C09'
     PHYSICS = True
